@@ -93,6 +93,12 @@ var c16Shapes = []c16Shape{
 
 func (c *c16) RunCase(r *fw.Rec, cs fw.Case) {
 	rng := cs.Rng("c16")
+	if cs.Index%25 == 24 {
+		// the per-frame state of tail calls (a frame re-entered in place, the flag of a discarded self call) must not
+		// survive into the next run of the same VM (see c07.go)
+		vmReuseAfterAbort(r, rng)
+		return
+	}
 	switch cs.Index % 8 {
 	case 6:
 		c.boundary(r, rng)
@@ -316,6 +322,10 @@ top := down()
 // space but its value must not become the function's result.
 func (c *c16) discarded(r *fw.Rec, rng *rand.Rand) {
 	depth := pick(rng, []int{1, 2, 10, 1023, 1500, 100000})
+	if rng.Intn(3) == 0 {
+		c.mixedForms(r, rng)
+		return
+	}
 	variant := rng.Intn(3)
 	var body string
 	switch variant {
@@ -351,8 +361,57 @@ func (c *c16) discarded(r *fw.Rec, rng *rand.Rand) {
 	r.Distinct(src)
 }
 
+// mixedForms: one function that calls itself as a discarded statement on some levels and as a returned tail call on
+// others. A level in statement form yields undefined whatever the deeper levels return; a level in return form passes
+// the deeper result on. So f(d) is the base value only if every level d..1 is in return form.
+func (c *c16) mixedForms(r *fw.Rec, rng *rand.Rand) {
+	m := 2 + rng.Intn(5)
+	rem := rng.Intn(m)
+	retForm := pick(rng, []string{"return f(n - 1)", "return true && f(n - 1)", "return false || f(n - 1)"})
+	body := fmt.Sprintf("if n == 0 { return 99 }; cnt++; if n %% %d == %d { %s }; f(n - 1)", m, rem, retForm)
+	if rng.Intn(2) == 0 {
+		// statement form inside the branch, return form at the end
+		body = fmt.Sprintf("if n == 0 { return 99 }; cnt++; if n %% %d != %d { f(n - 1); return }; %s", m, rem, retForm)
+	}
+	depths := []int{rng.Intn(4), 1 + rng.Intn(12), pick(rng, []int{m, 2 * m, 3*m + 1, 50, 1023, 1500, 30000})}
+	var sb strings.Builder
+	sb.WriteString("cnt := 0\nf := func(n) { " + body + " }\n")
+	want := map[string]string{}
+	total := 0
+	for i, d := range depths {
+		sb.WriteString(fmt.Sprintf("r%d := f(%d)\n", i, d))
+		allReturn := true
+		for n := d; n >= 1; n-- {
+			if n%m != rem {
+				allReturn = false
+			}
+		}
+		want[fmt.Sprintf("r%d", i)] = map[bool]string{true: "i99", false: "undef"}[allReturn]
+		total += d
+	}
+	want["cnt"] = fmt.Sprintf("i%d", total)
+	src := sb.String()
+	eng := runEngine([]byte(src), engineOpts{Budget: 50_000_000})
+	r.Eval()
+	r.Inc("discarded-call")
+	r.Inc("mixed-forms")
+	detail := map[string]interface{}{"source": src, "engine": eng.Phase + ": " + eng.FullErr, "globals": eng.Globals, "want": want}
+	if eng.Phase != "ok" {
+		r.Violate("mixed:fails", "a function mixing statement-form and return-form self calls did not complete", detail)
+		return
+	}
+	for k, w := range want {
+		if eng.Globals[k] != w {
+			detail["variable"] = k
+			r.Violate("tail:mixed-forms-value", "a function that calls itself both as a discarded statement and as a returned tail call returned the wrong value", detail)
+			return
+		}
+	}
+	r.Distinct(src)
+}
+
 func (c *c16) Finish(m *fw.Merged, tier string) {
-	for _, k := range []string{"class:tail", "class:nottail", "class:free", "captures-checked", "constant-frames-checked", "growing-frames-checked", "boundary-checked", "overflow-checked", "discarded-call", "depth:1024", "depth:100000"} {
+	for _, k := range []string{"class:tail", "class:nottail", "class:free", "captures-checked", "constant-frames-checked", "growing-frames-checked", "boundary-checked", "overflow-checked", "discarded-call", "mixed-forms", "vm-reuse-reruns-checked", "depth:1024", "depth:100000"} {
 		if m.Counters[k] == 0 {
 			m.Fail("never observed: " + k)
 		}
